@@ -81,7 +81,7 @@ type pools struct {
 	coll    [3]*collector
 	writers [3]*bytes.Buffer
 	impls   [4]transport.Implementation // 0,1 null; 2 a user-made *transport.File; 3 nil
-	privs   [3]map[string]*network.PrivilegeLevel
+	privs   [4]map[string]*network.PrivilegeLevel // 3: an empty map (no levels)
 	home    string // the HOME this list runs under
 }
 
@@ -119,6 +119,9 @@ func privPool(k int) map[string]*network.PrivilegeLevel {
 		Escalate: "enable", Deescalate: "disable", EscalateAuth: true, EscalatePrompt: `(?im)^password:\s*$`}
 	conf := &network.PrivilegeLevel{Name: "configuration", Pattern: `(?im)^[a-z\d.\-@/:]{1,48}\(config[a-z\d.\-@/:]{0,32}\)#\s*$`,
 		NotContains: []string{"tcl)"}, PreviousPriv: "privilege-exec", Escalate: "configure terminal", Deescalate: "end"}
+	if k == 3 {
+		return map[string]*network.PrivilegeLevel{}
+	}
 	switch k % 3 {
 	case 0:
 		return map[string]*network.PrivilegeLevel{"exec": exec}
@@ -138,6 +141,7 @@ func newPools(home string) *pools {
 		p.writers[k] = &bytes.Buffer{}
 		p.privs[k] = privPool(k)
 	}
+	p.privs[3] = privPool(3)
 	p.impls[0] = &nullImpl{0}
 	p.impls[1] = &nullImpl{1}
 	p.impls[2] = &transport.File{}
@@ -453,8 +457,8 @@ func init() {
 			Gen:     func(r *rand.Rand) Opt { return Opt{N: "WithNetworkOnClose", I: r.Intn(4)} }})
 	// privilege.go
 	add(&optSpec{Name: "WithPrivilegeLevels", Doc: "the map of privilege levels of a network driver",
-		Effects: []effect{{Obj: oNetwork, Field: "PrivilegeLevels", Val: func(o Opt, p *pools) interface{} { return p.privs[o.I%3] }}},
-		Make:    func(o Opt, p *pools) util.Option { return options.WithPrivilegeLevels(p.privs[o.I%3]) },
+		Effects: []effect{{Obj: oNetwork, Field: "PrivilegeLevels", Val: func(o Opt, p *pools) interface{} { return p.privs[o.I&3] }}},
+		Make:    func(o Opt, p *pools) util.Option { return options.WithPrivilegeLevels(p.privs[o.I&3]) },
 		Gen:     func(r *rand.Rand) Opt { return Opt{N: "WithPrivilegeLevels", I: r.Intn(3)} }},
 		specS("WithDefaultDesiredPriv", "the default desired privilege level", oNetwork, "DefaultDesiredPriv",
 			[]string{"exec", "privilege-exec", "configuration"}, options.WithDefaultDesiredPriv))
